@@ -582,6 +582,8 @@ public:
   void dissociateNode(Nref nodeObject)
   {
     typename std::map<Nref, NodeGraphid>::iterator nodeToForget = NToGraphid_.find(nodeObject);
+    if (nodeToForget == NToGraphid_.end())
+      throw Exception("AssociationGraphImplObserver::dissociateNode : unexisting node object: " + nodeToString(nodeObject));
     graphidToN_.at(nodeToForget->second) = 00;
     NToGraphid_.erase(nodeToForget);
   }
@@ -590,6 +592,8 @@ public:
   void dissociateEdge(Eref edgeObject)
   {
     typename std::map<Eref, EdgeGraphid>::iterator edgeToForget = EToGraphid_.find(edgeObject);
+    if (edgeToForget == EToGraphid_.end())
+      throw Exception("AssociationGraphImplObserver::dissociateEdge : unexisting edge object: " + edgeToString(edgeObject));
     graphidToE_.at(edgeToForget->second) = 00;
     EToGraphid_.erase(edgeToForget);
   }
